@@ -78,5 +78,11 @@ func corpusDocs() []*Doc {
 		raw(false, fnStyle+`abc def ghi<span class="fn"></span>`),
 		raw(false, fnStyle+`<p>abc<span class="fn">f f f f f f f f f f f f f f f f f f f f f f f f f f f f</span> def</p>`),
 	)
+	// fixed-4f0d638: grid auto-placement put a spanning item where it overflows the columns
+	out = append(out,
+		raw(false, `<div style="display:grid;grid-template-columns:1fr 1fr"><p>a</p><p style="grid-column:span 2">b</p><p>c</p></div>`),
+		raw(false, `<div style="display:grid">a<span style="grid-column:span 2"></span></div>`),
+		raw(false, `<div style="display:grid;grid-auto-flow:dense"><p>a</p><p style="grid-column:span 3">b</p></div>`),
+	)
 	return out
 }
